@@ -29,7 +29,8 @@ def order_ff(a: float, b: float) -> bool:
     pre: a == a and b == b
     post: _
     """
-    tick()
+    if tick():
+        return True
     lt, le = _passes(R.assert_less, a, b), _passes(R.assert_less_equal, a, b)
     gt, ge = _passes(R.assert_greater, a, b), _passes(R.assert_greater_equal, a, b)
     return (lt == (a < b) and le == (a <= b) and gt == (a > b) and ge == (a >= b)
@@ -43,7 +44,8 @@ def order_ii(a: int, b: int) -> bool:
     pre: True
     post: _
     """
-    tick()
+    if tick():
+        return True
     lt, le = _passes(R.assert_less, a, b), _passes(R.assert_less_equal, a, b)
     gt, ge = _passes(R.assert_greater, a, b), _passes(R.assert_greater_equal, a, b)
     return (lt == (a < b) and le == (a <= b) and gt == (a > b) and ge == (a >= b)
@@ -67,7 +69,8 @@ def order_mixed(i0: bool, i1: bool, i2: bool, b0: bool, b1: bool, b2: bool, b3: 
     pre: True
     post: _
     """
-    tick()
+    if tick():
+        return True
     i = bits(i0, i1, i2) - 3
     f = _grid(b0, b1, b2, b3)
     if f is None:
@@ -84,7 +87,8 @@ def order_str(a: str, b: str) -> bool:
     pre: len(a) <= 3 and len(b) <= 3
     post: _
     """
-    tick()
+    if tick():
+        return True
     lt, le = _passes(R.assert_less, a, b), _passes(R.assert_less_equal, a, b)
     gt, ge = _passes(R.assert_greater, a, b), _passes(R.assert_greater_equal, a, b)
     return lt == (a < b) and le == (a <= b) and gt == (a > b) and ge == (a >= b) and lt != ge and le != gt
@@ -97,7 +101,8 @@ def eq_int(a: int, b: int) -> bool:
     pre: True
     post: _
     """
-    tick()
+    if tick():
+        return True
     e1, e2 = equality_test(a, b, False, DELTA), equality_test(b, a, False, DELTA)
     pos = _passes(R.assert_equal, a, b, exact_strings=False, delta=DELTA)
     neg = _passes(R.assert_not_equal, a, b, exact_strings=False, delta=DELTA)
@@ -114,7 +119,8 @@ def eq_grid(i0: bool, i1: bool, i2: bool, x0: bool, x1: bool, x2: bool, x3: bool
     pre: True
     post: _
     """
-    tick()
+    if tick():
+        return True
     if PART:
         left_int, nest = [bool(int(x)) for x in PART.split(",")]
     i = bits(i0, i1, i2) - 3
@@ -152,7 +158,8 @@ def eq_scalar(a: Scalar, b: Scalar, exact: bool) -> bool:
     pre: exact or not (isinstance(a, str) and isinstance(b, str))
     post: _
     """
-    tick()
+    if tick():
+        return True
     if excluded("C07.eq_scalar", a=a, b=b, exact=exact):
         return True
     e1, e2 = equality_test(a, b, exact, DELTA), equality_test(b, a, exact, DELTA)
@@ -180,7 +187,8 @@ def eq_seq(a: List[int], b: List[int], as_tuple: bool) -> bool:
     pre: len(a) <= 2 and len(b) <= 2
     post: _
     """
-    tick()
+    if tick():
+        return True
     x, y = (tuple(a), tuple(b)) if as_tuple else (list(a), list(b))
     e = equality_test(x, y, False, DELTA)
     want = len(a) == len(b) and all(equality_test(p, q, False, DELTA) for p, q in zip(a, b))
@@ -195,7 +203,8 @@ def eq_dict(ka0: bool, ka1: bool, va: int, kb0: bool, kb1: bool, vb: int) -> boo
     pre: True
     post: _
     """
-    tick()
+    if tick():
+        return True
     KEYS = ["a", "b", "c", "a"]
     ka, kb = KEYS[bits(ka0, ka1)], KEYS[bits(kb0, kb1)]
     e = equality_test({ka: va}, {kb: vb}, True, DELTA)
@@ -215,7 +224,8 @@ def eq_str_norm(x0: bool, x1: bool, x2: bool, x3: bool, y0: bool, y1: bool, y2: 
     pre: True
     post: _
     """
-    tick()
+    if tick():
+        return True
     i, j = bits(x0, x1, x2, x3), bits(y0, y1, y2, y3)
     if i >= len(STRINGS) or j >= len(STRINGS):
         return True
@@ -235,7 +245,8 @@ def member_list(needle: int, hay: List[int]) -> bool:
     pre: len(hay) <= 3
     post: _
     """
-    tick()
+    if tick():
+        return True
     p, n = _passes(R.assert_in, needle, hay), _passes(R.assert_not_in, needle, hay)
     sub = _passes(R.assert_contains_subset, [needle], hay)
     nsub = _passes(R.assert_not_contains_subset, [needle], hay)
@@ -248,7 +259,8 @@ def member_str(needle: str, hay: str) -> bool:
     pre: len(needle) <= 2 and len(hay) <= 3
     post: _
     """
-    tick()
+    if tick():
+        return True
     p, n = _passes(R.assert_in, needle, hay), _passes(R.assert_not_in, needle, hay)
     want = needle in hay
     return p == want and n == (not want)
@@ -264,7 +276,8 @@ def truth_none(v: Any1) -> bool:
     pre: (not isinstance(v, str) or len(v) <= 2) and (not isinstance(v, list) or len(v) <= 2)
     post: _
     """
-    tick()
+    if tick():
+        return True
     t, f = _passes(R.assert_true, v, ExactValue("True")), _passes(R.assert_false, v, ExactValue("False"))
     n, nn = _passes(R.assert_is_none, v, ExactValue("None")), _passes(R.assert_is_not_none, v, ExactValue("None"))
     return t == bool(v) and f == (not bool(v)) and n == (v is None) and nn == (v is not None)
@@ -277,7 +290,8 @@ def length(seq: List[int], n: int) -> bool:
     pre: len(seq) <= 3
     post: _
     """
-    tick()
+    if tick():
+        return True
     k = len(seq)
     return (_passes(R.assert_length_equal, seq, n) == (k == n)
             and _passes(R.assert_length_not_equal, seq, n) == (k != n)
@@ -294,7 +308,8 @@ def identity(xs: List[int], same: bool) -> bool:
     pre: len(xs) <= 2
     post: _
     """
-    tick()
+    if tick():
+        return True
     other = xs if same else list(xs)
     return _passes(R.assert_is, xs, other) == same and _passes(R.assert_is_not, xs, other) == (not same)
 
@@ -309,7 +324,8 @@ def instance(v: Union[int, float, str, bool, List[int]], c0: bool, c1: bool, c2:
     pre: (not isinstance(v, str) or len(v) <= 1) and (not isinstance(v, list) or len(v) <= 1)
     post: _
     """
-    tick()
+    if tick():
+        return True
     k = bits(c0, c1, c2)
     if k >= len(CLASSES):
         return True
@@ -325,5 +341,6 @@ def order_reach(a: float, b: float) -> bool:
     pre: a == a and b == b
     post: _
     """
-    tick()
+    if tick():
+        return True
     return _passes(R.assert_less, a, b)
